@@ -36,6 +36,7 @@ impl Property for C01 {
     }
     fn strategy(&self, tier: Tier) -> BoxedStrategy<Case> {
         let mut dp = DicParams::small();
+        dp.big_matrix = true;
         let maxp = tier.pick(10, 40);
         if tier == Tier::Thorough {
             dp.max_base = 25;
@@ -57,6 +58,13 @@ impl Property for C01 {
             "matrix": case.dic.matrix.render(),
             "cfg": case.cfg,
         })
+    }
+    fn extra(&self, tier: Tier, _seed: u64, ctx: &mut Ctx, stats: &mut Stats) -> Vec<(Value, Failure)> {
+        // texts whose byte length / normalised byte length sit on the documented limits (49,149 and
+        // 65,535: the offsets are 16-bit): whatever is accepted must still partition the text
+        let (dic, cfg) = crate::props::c03::fallback_world_pub();
+        let fam: Vec<(String, Case)> = crate::props::c03::length_family(tier).into_iter().map(|(n, p)| (n, Case { dic: dic.clone(), cfg: cfg.clone(), texts: vec![p] })).collect();
+        run_family(self, ctx, stats, "length-family", fam)
     }
     fn check(&self, case: &Case, ctx: &mut Ctx) -> Report {
         let mut rep = Report::default();
